@@ -10,15 +10,20 @@ set_option linter.unusedSectionVars false
 def CoreEq (s s' : Col α) : Prop :=
   s'.sections = s.sections ∧ s'.cur = s.cur ∧ s'.ingredients = s.ingredients ∧ s'.cookware = s.cookware ∧
   s'.timers = s.timers ∧ s'.inlineQ = s.inlineQ ∧ s'.locIngr = s.locIngr ∧ s'.locCw = s.locCw ∧
-  s'.stepCounter = s.stepCounter ∧ s'.block = s.block
+  s'.stepCounter = s.stepCounter ∧ (s'.block = s.block ∨ ∃ t, s'.block = some (.text t))
 
-theorem CoreEq.refl (s : Col α) : CoreEq s s := ⟨rfl, rfl, rfl, rfl, rfl, rfl, rfl, rfl, rfl, rfl⟩
+theorem CoreEq.refl (s : Col α) : CoreEq s s := ⟨rfl, rfl, rfl, rfl, rfl, rfl, rfl, rfl, rfl, Or.inl rfl⟩
 
 theorem CoreEq.trans {a b c : Col α} (h1 : CoreEq a b) (h2 : CoreEq b c) : CoreEq a c := by
   obtain ⟨a1, a2, a3, a4, a5, a6, a7, a8, a9, a10⟩ := h1
   obtain ⟨b1, b2, b3, b4, b5, b6, b7, b8, b9, b10⟩ := h2
-  exact ⟨b1.trans a1, b2.trans a2, b3.trans a3, b4.trans a4, b5.trans a5, b6.trans a6, b7.trans a7,
-    b8.trans a8, b9.trans a9, b10.trans a10⟩
+  refine ⟨b1.trans a1, b2.trans a2, b3.trans a3, b4.trans a4, b5.trans a5, b6.trans a6, b7.trans a7,
+    b8.trans a8, b9.trans a9, ?_⟩
+  rcases b10 with b10 | ⟨t, ht⟩
+  · rcases a10 with a10 | ⟨t, ht⟩
+    · exact Or.inl (b10.trans a10)
+    · exact Or.inr ⟨t, b10.trans ht⟩
+  · exact Or.inr ⟨t, ht⟩
 
 /-- `m` changes none of the fields the invariant talks about -/
 structure CoreOnly {β : Type} (m : A α β) : Prop where
@@ -48,7 +53,8 @@ macro_rules | `(tactic| core_leaf) => `(tactic| first
   | with_reducible exact DiagOnly.coreOnly (DiagOnly.apanic _)
   | with_reducible exact DiagOnly.coreOnly (DiagOnly.aerr _ _)
   | with_reducible exact DiagOnly.coreOnly (DiagOnly.awarn _ _)
-  | ((with_reducible apply CoreOnly.modify); intro s; exact ⟨rfl, rfl, rfl, rfl, rfl, rfl, rfl, rfl, rfl, rfl⟩)
+  | ((with_reducible apply CoreOnly.modify); intro s; exact ⟨rfl, rfl, rfl, rfl, rfl, rfl, rfl, rfl, rfl, Or.inl rfl⟩)
+  | ((with_reducible apply CoreOnly.modify); intro s; exact ⟨rfl, rfl, rfl, rfl, rfl, rfl, rfl, rfl, rfl, Or.inr ⟨_, rfl⟩⟩)
   | assumption)
 
 macro "core_only" : tactic => `(tactic|
@@ -173,6 +179,129 @@ theorem Inv.congr {env : Env} {s s' : Col α} (h : CoreEq s s') (hi : Inv env s)
   · rw [h1, h3, h4, h5, h6]; exact hi.secs
   · rw [h2, h3, h4, h5, h6]; exact hi.cur
   · rw [h9, h2]; exact hi.counter
-  · rw [h10, h3, h4, h5, h6]; exact hi.blk
+  · rw [h3, h4, h5, h6]
+    intro items hb
+    rcases h10 with h10 | ⟨t, ht⟩
+    · exact hi.blk items (h10 ▸ hb)
+    · rw [ht] at hb; cases hb
+
+/-- the state keeps its sections and current section; the tables only grow -/
+theorem Inv.grow {env : Env} {s s' : Col α} (hi : Inv env s)
+    (hsec : s'.sections = s.sections) (hcur : s'.cur = s.cur) (hctr : s'.stepCounter = s.stepCounter)
+    (hni : s.ingredients.size ≤ s'.ingredients.size) (hnc : s.cookware.size ≤ s'.cookware.size)
+    (hnt : s.timers.size ≤ s'.timers.size) (hnq : s.inlineQ.size ≤ s'.inlineQ.size)
+    (locI : s'.locIngr.size = s'.ingredients.size) (locC : s'.locCw.size = s'.cookware.size)
+    (itab : IngrTable env s'.ingredients) (ctab : CwTable env s'.cookware)
+    (timers : ∀ t ∈ s'.timers.toList, t.name.isSome = true ∨ t.quantity.isSome = true)
+    (blk : ∀ items, s'.block = some (.step items) →
+      ∀ it ∈ items, ItemOK s'.ingredients.size s'.cookware.size s'.timers.size s'.inlineQ.size it) :
+    Inv env s' where
+  locI := locI
+  locC := locC
+  itab := itab
+  ctab := ctab
+  timers := timers
+  secs := by
+    rw [hsec]
+    intro sec hsec
+    obtain ⟨h1, h2, h3⟩ := hi.secs sec hsec
+    exact ⟨h1, h2, fun ct hct => (h3 ct hct).mono hni hnc hnt hnq⟩
+  cur := by
+    rw [hcur]
+    exact ⟨hi.cur.1, fun ct hct => (hi.cur.2 ct hct).mono hni hnc hnt hnq⟩
+  counter := by rw [hctr, hcur]; exact hi.counter
+  blk := blk
+
+/-- events the parser can produce: intermediate data comes with the REF modifier, a timer has a name
+    or a quantity -/
+def EvOK : Ev α → Prop
+  | .ingredient i => i.val.inter.isSome = true → i.val.modifiers.val.contains Modifiers.REF = true
+  | .timer t => t.val.name.isSome = true ∨ t.val.quantity.isSome = true
+  | _ => True
+
+/-! ### step text -/
+
+theorem inlineLoop_spec (env : Env) (fuel : Nat) (hay : Str) (items : List Item) (iq : Array (Quantity (Value α))) :
+    iq.size ≤ (inlineLoop env fuel hay items iq).2.size ∧
+    ∀ it ∈ (inlineLoop env fuel hay items iq).1, it ∈ items ∨ (∃ t, it = .text t) ∨
+      (∃ i, it = .inlineQuantity i ∧ i < (inlineLoop env fuel hay items iq).2.size) := by
+  induction fuel generalizing hay items iq with
+  | zero =>
+    unfold inlineLoop
+    exact ⟨Nat.le_refl _, fun it h => Or.inl h⟩
+  | succ fuel ih =>
+    unfold inlineLoop
+    split
+    · rename_i hit _
+      dsimp only
+      have := ih hit.after
+        ((if hit.before.isEmpty = true then items else items ++ [Item.text hit.before]) ++ [Item.inlineQuantity iq.size])
+        (iq.push hit.q)
+      rw [Array.size_push] at this
+      refine ⟨by omega, ?_⟩
+      intro it hit'
+      rcases this.2 it hit' with h | h | h
+      · simp only [List.mem_append, List.mem_singleton] at h
+        rcases h with h | h
+        · split at h
+          · exact Or.inl h
+          · simp only [List.mem_append, List.mem_singleton] at h
+            rcases h with h | h
+            · exact Or.inl h
+            · exact Or.inr (Or.inl ⟨_, h⟩)
+        · exact Or.inr (Or.inr ⟨_, h, by omega⟩)
+      · exact Or.inr (Or.inl h)
+      · exact Or.inr (Or.inr h)
+    · refine ⟨Nat.le_refl _, ?_⟩
+      intro it hit'
+      split at hit'
+      · exact Or.inl hit'
+      · simp only [List.mem_append, List.mem_singleton] at hit'
+        rcases hit' with h | h
+        · exact Or.inl h
+        · exact Or.inr (Or.inl ⟨_, h⟩)
+
+theorem inStepTextStep_inv (env : Env) (t : Text) (items : List Item) (s : Col α) (hi : Inv env s)
+    (hb : s.block = some (.step items)) : Inv env (inStepTextStep env t items s).2 := by
+  unfold inStepTextStep
+  simp +instances only [A_bind, A_get, A_ite, A_modify, A_pure, awarn]
+  split
+  · split
+    · refine Inv.congr (s := s) ?_ hi; exact ⟨rfl, rfl, rfl, rfl, rfl, rfl, rfl, rfl, rfl, Or.inl rfl⟩
+    · exact hi
+  · split
+    · have hl := inlineLoop_spec env (t.text.length + 1) t.text items s.inlineQ
+      refine hi.grow rfl rfl rfl (Nat.le_refl _) (Nat.le_refl _) (Nat.le_refl _) hl.1 hi.locI hi.locC hi.itab hi.ctab
+        hi.timers ?_
+      intro items' hb' it hit
+      simp only [Option.some.injEq, BlockBuf.step.injEq] at hb'
+      subst hb'
+      rcases hl.2 it hit with h | ⟨tx, h⟩ | ⟨i, h, hlt⟩
+      · exact (hi.blk items hb it h).mono (Nat.le_refl _) (Nat.le_refl _) (Nat.le_refl _) hl.1
+      · rw [h]; trivial
+      · rw [h]; exact hlt
+    · refine hi.grow rfl rfl rfl (Nat.le_refl _) (Nat.le_refl _) (Nat.le_refl _) (Nat.le_refl _) hi.locI hi.locC
+        hi.itab hi.ctab hi.timers ?_
+      intro items' hb' it hit
+      simp only [Option.some.injEq, BlockBuf.step.injEq] at hb'
+      subst hb'
+      simp only [List.mem_append, List.mem_singleton] at hit
+      rcases hit with h | h
+      · exact hi.blk items hb it h
+      · rw [h]; trivial
+
+theorem inStepText_inv (env : Env) (t : Text) (s : Col α) (hi : Inv env s) : Inv env (inStepText env t s).2 := by
+  unfold inStepText
+  simp +instances only [A_bind, A_get]
+  cases hb : s.block with
+  | none =>
+    simp only []
+    exact hi.congr ((DiagOnly.apanic _).coreOnly.out s)
+  | some buf =>
+    cases buf with
+    | step items => simp only []; exact inStepTextStep_inv env t items s hi hb
+    | text b =>
+      simp only [A_modify]
+      refine Inv.congr (s := s) ?_ hi; exact ⟨rfl, rfl, rfl, rfl, rfl, rfl, rfl, rfl, rfl, Or.inr ⟨_, rfl⟩⟩
 
 end Cook
